@@ -334,6 +334,70 @@ def degree_rule_case(name, prog, m, t, no_prss, k, seed):
     return None, n_open
 
 
+def _poly_coeffs(points, p):
+    """coefficients (low to high) of the polynomial of degree < len(points) through the points, mod p (Gauss elimination)"""
+    n = len(points)
+    A = [[pow(x, j, p) for j in range(n)] + [y % p] for x, y in points]
+    for c in range(n):
+        piv = next(r for r in range(c, n) if A[r][c] % p)
+        A[c], A[piv] = A[piv], A[c]
+        inv = pow(A[c][c], p - 2, p)
+        A[c] = [v * inv % p for v in A[c]]
+        for r in range(n):
+            if r != c and A[r][c]:
+                f_ = A[r][c]
+                A[r] = [(a - f_ * b) % p for a, b in zip(A[r], A[c])]
+    return [A[j][n] for j in range(n)]
+
+
+def zero_sharing_independence(ctx):
+    """PRSS zero sharings drawn in ONE call (random_bits, _is_zero draw several) must be independent: over a large field no
+    non-constant coefficient of one sharing polynomial may reappear in another one of the same batch"""
+    rng = ctx.subrng('zero-independence')
+    for (m, t, k) in [(5, 2, 30), (5, 2, 8)] + ([(7, 3, 30), (7, 2, 30), (6, 2, 30)] if ctx.thorough else []):
+        seed = rng.randrange(10**9)
+
+        async def prog(mpc):
+            T = mpc.SecInt(32)
+            bits = mpc.random_bits(T, 5)
+            x = mpc.input(T(12345), senders=0)
+            e = mpc.is_zero(x) if False else (x == 7)
+            return [int(v) for v in await mpc.output(bits + [e])]
+        rep = {'kind': 'zero-independence', 'm': m, 't': t, 'k': k, 'seed': seed}
+        net = SimNet(m, t, seed=seed, sched=Scheduler(seed, 'random'), sec_param=k, max_steps=3_000_000)
+        try:
+            with sharemon.ShareMonitor(net, record_results=False) as mon:
+                net.run(prog)
+        except (Deadlock, PartyError) as exc:
+            ctx.violation(f'C18: zero-sharing program does not run: {str(exc)[:200]}', rep)
+            return
+        ncalls = len(mon.zero_shares[0])
+        for c in range(ncalls):
+            origin, p, uci, _ = mon.zero_shares[0][c]
+            n = len(mon.zero_shares[0][c][3])
+            if n < 2 or p < 2 ** 40:
+                continue
+            polys = []
+            for h in range(n):
+                pts = [(i + 1, mon.zero_shares[i][c][3][h]) for i in range(m)]
+                co = _poly_coeffs(pts[:2 * t + 1], p)
+                if co[0] != 0 or any(sharemon.interpolate_at(pts[:2 * t + 1], x, p) != y for x, y in pts):
+                    ctx.violation(f'C18: {origin}: PRSS zero sharing {h} of a batch is not a degree-2t sharing of 0', rep)
+                    return
+                polys.append(co[1:])
+            ctx.case(('zero-independence', m, t, k, c), nontrivial=True)
+            ctx.count('zero-sharing-batches')
+            seen = {}
+            for h, co in enumerate(polys):
+                for j, v in enumerate(co):
+                    if v != 0 and v in seen and seen[v][0] != h:
+                        ctx.violation(f'C18: {origin}: zero sharings {seen[v][0]} and {h} of one batch (m={m}, t={t}) share the '
+                                      f'coefficient of X^{seen[v][1] + 1} / X^{j + 1}: they are not independent, a coalition of t '
+                                      f'parties can relate the values they re-randomise', rep)
+                        return
+                    seen.setdefault(v, (h, j))
+
+
 def degree_rule(ctx):
     import programs
     rng = ctx.subrng('degree-rule')
@@ -463,6 +527,7 @@ def run(ctx):
                                 'window_bits': [win[0].bit_length(), win[1].bit_length()], 'runs': N})
     zero_test_views(ctx)
     degree_rule(ctx)
+    zero_sharing_independence(ctx)
     model = common.LeanDriver('Share').run(lines)
     ctx.compare('mask range rounding (runtime._randoms vs MpycV.Share.maskBound)', exps, model, metas)
 
